@@ -260,15 +260,34 @@ def recover_moves(prog, table):
             continue
         _, fi, extra, lead, sites = cands[0]
         recv = 'cls' if kind == 'classmethod' else 'self'
-        args = ([lead.replace('@', recv, 1)] if extra else []) + list(call_params)
-        callee = fi.name if fi.cls is None else ('%s.%s' % (recv if kind != 'staticmethod' else cls.name, fi.name))
-        deco = {'classmethod': '    @classmethod\n', 'staticmethod': '    @staticmethod\n', 'method': ''}[kind]
-        text = 'class _X:\n%s    def %s(%s):\n        return %s(%s)\n' % (deco, mname, ', '.join(ref_pos), callee, ', '.join(args))
-        try:
-            wrapper = ast.parse(text).body[0].body[0]
-        except SyntaxError:
+        # put the function back where the reference tree has it: same body, the reference parameter names, the extra leading
+        # parameter replaced by the expression every caller passed for it
+        fparams = fi.call_params()
+        if fi.cls is not None and not fi.is_staticmethod:
+            continue            # a method of the class under another name and role: not a plain move
+        exprs, renames = {}, {}
+        if extra:
+            try:
+                exprs[fparams[0]] = ast.parse(lead.replace('@', recv, 1), mode='eval').body
+            except SyntaxError:
+                continue
+        for a, b in zip(fparams[extra:], call_params):
+            if a != b:
+                renames[a] = b
+        used = {x.id for x in ast.walk(fi.node) if isinstance(x, ast.Name)}
+        if any(b in used and b not in fparams for b in renames.values()) or (extra and fparams[0] in _stored_names(fi.node)):
             continue
-        ast.copy_location(wrapper, fi.node)
+        wrapper = copy.deepcopy(fi.node)
+        wrapper.name = mname
+        wrapper.decorator_list = [ast.Name(id=kind, ctx=ast.Load())] if kind in ('classmethod', 'staticmethod') else []
+        wrapper.body = [_Subst(exprs, renames).visit(st) for st in wrapper.body]
+        wrapper.args = copy.deepcopy(fi.node.args)
+        keep = wrapper.args.args[extra:]
+        for a_ in keep:
+            a_.arg = renames.get(a_.arg, a_.arg)
+        lead_args = [ast.arg(arg=ref_pos[0], annotation=None)] if kind in ('method', 'classmethod') else []
+        wrapper.args.args = lead_args + keep
+        wrapper.args.posonlyargs = []
         ast.fix_missing_locations(wrapper)
         cls.node.body.append(wrapper)
         # call sites inside the class go through the wrapper again
